@@ -324,7 +324,7 @@ func (c16) Execute(sc *engine.Scenario) *engine.Result {
 	restarted, changed := false, false
 	trafficPending := 0
 	routinePending, routinePage := false, uint8(0)
-	invalid := false          // the running transfer was started with a value outside 00-F1: not judged
+	invalid := false // the running transfer was started with a value outside 00-F1: not judged
 	phase := ""
 	dg := engine.NewDigest()
 	ok := true
